@@ -225,6 +225,22 @@ def run(F, rep):
                     rep.check(fresh(g, n['c'][0]), 'C12.M1', '%s|%s' % (entry.short.split('::')[-1], key), g.where(n),
                               '%s (reachable from %s) calls %s, which writes %s, on an object that is not created inside the service: the caller\'s model is modified' % (g.short, entry.short, render(n)[:50], sorted(w)[:3]),
                               'receiver is created inside the service')
+    rep.rule('C12.M2', 'the generator does not change the analysed model it is given: every state-changing method of AnalyserEquationAst called in generator.cpp is called on a node created there (the temporary nodes it builds for root/power code), '
+                       'never on a node reached from the model\'s own AST')
+    astm = {m['key']: m for m in (F.records.get('libcellml::AnalyserEquationAst') or {'methods': []})['methods']}
+    n_m2 = 0
+    for g in F.funcs.values():
+        if not g.file.endswith('/generator.cpp'):
+            continue
+        for n in g.walk():
+            if n.get('k') == 'Call' and n.get('mc') and n.get('ck') in astm and not astm[n['ck']]['const'] and not astm[n['ck']]['static']:
+                callee = F.funcs.get(n['ck'])
+                if callee is None or not fields.this_writes(F, callee):
+                    continue
+                n_m2 += 1
+                rep.check(fresh(g, n['c'][0]), 'C12.M2', '%s|%s' % (g.short.split('::')[-1], render(n)[:60]), g.where(n), '%s calls `%s` on a node that was not created inside the generator: generating code changes the AnalyserModel' % (g.short, render(n)[:60]), 'receiver created in the generator')
+    if n_m2 < 3:
+        raise AnalysisBroken('C12.M2: only %d AST mutations in generator.cpp (5+ confirmed)' % n_m2)
     rep.ok('C12.M1', 'scan', None, '%d state-changing entity calls examined in the reach of %d read-only services' % (n_m, len(READONLY_SERVICES)))
 
 
